@@ -29,7 +29,7 @@ CFG = {
     ],
     "manifest": {
         "category": "proof",
-        "text": "Unbounded theorems in Coq over any total order with a least element (membership of each range kind, from_until constructibility, overlap <-> shared version, symmetry, header policy), kernel-checked with closed assumptions; correspondence with the real crate exhaustive up to order-isomorphism (every range and every ordered pair of ranges over a 7-chain of real semver versions, observed through lookup_route and register) plus sampled header values; spec evaluated in Coq on each implementation observation.",
+        "text": "Unbounded theorems in Coq over any total order with a least element (membership of each range kind, from_until constructibility, overlap <-> shared version, symmetry, header policy; invariance of matching / overlap / the policy under order embeddings relative to the range bounds, ranking against a finite chain being one - the model-side reason why a finite chain decides all versions; the policy inside the request pipeline: a refused version is a 400 whatever path, method and table), kernel-checked with closed assumptions; correspondence with the real crate exhaustive up to order-isomorphism (every range and every ordered pair of ranges over a 7-chain of real semver versions, observed through lookup_route and register) plus sampled triples of ranges, header values direct and through a live server; spec evaluated in Coq on each implementation observation.",
         "design_ref": "DESIGN.md §6 C05",
         "note": "Coq kernel + vm_compute; hand-written model Versions.v tied by the correspondence run; semver parsing/ordering are library code (ranked by the harness; concrete order modelled in Semver.v); dropshot assumed to inspect versions only through Ord/Eq. Open known findings K2, K3.",
         "technique": "Coq proof (total-order functor) + exhaustive-up-to-order-isomorphism correspondence"
